@@ -19,7 +19,7 @@ def mesh_digest(mesh) -> str:
     parts = []
     for et in sorted(mesh.dict_groupElem, key=str):
         g = mesh.dict_groupElem[et]
-        tags = g._dict_nodes_tags
+        tags = meshlib.node_tags(g)
         parts.append([str(et), g.connect, g.coord, g.nodes, {k: np.sort(np.asarray(v)) for k, v in tags.items()}])
     # the global element numbering (element-wise results are returned in that order): main-dimension groups in the
     # order the mesh enumerates them
